@@ -1,3 +1,113 @@
 package main
 
-func runSelftest(args []string) int { return 0 }
+import (
+	"encoding/json"
+	"fmt"
+	"os"
+	"path/filepath"
+	"strings"
+	"time"
+)
+
+// selftest = translation validation: each program below is executed (a) symbolically from
+// SSA - all inputs are concrete, so exactly one path with concrete observations results -
+// and (b) natively; the observation lists must be identical. This validates the SSA
+// interpreter and the environment models on the repository's own test inputs.
+var selftestPrograms = [][2]string{
+	{"github.com/buzzfeed/sso/internal/pkg/singleflight", "VerifSelftestGo"},
+	{"github.com/buzzfeed/sso/internal/proxy", "VerifSelftestProxy"},
+	{"github.com/buzzfeed/sso/internal/auth", "VerifSelftestAuth"},
+	{"github.com/buzzfeed/sso/internal/auth/circuit", "VerifSelftestBreaker"},
+}
+
+func runSelftest(args []string) int {
+	rc := 0
+	out := filepath.Join(outRoot, "out", "selftest")
+	os.MkdirAll(out, 0o755)
+	for _, prog := range selftestPrograms {
+		pkg, fn := prog[0], prog[1]
+		l, err := loadProgram([]string{pkg}, nil)
+		if err != nil {
+			fmt.Println("selftest: FAIL load", pkg, err)
+			return 1
+		}
+		// symbolic run
+		sp := l.Pkgs[pkg]
+		f := sp.Func(fn)
+		if f == nil {
+			fmt.Println("selftest: FAIL no program", fn)
+			return 1
+		}
+		cfg := defaultCfg()
+		cfg.Workers = 1
+		e := NewEngine(l.Prog, cfg)
+		e.Models = collectModels(l.Prog)
+		e.RootPkg = sp
+		iw := &Worker{E: e, S: e.Pool.New(cfg.TimeoutMs)}
+		e.InitPackages(sp, iw)
+		e.TraceOut = map[string][]string{}
+		e.Run(f, fn)
+		e.Pool.CloseAll()
+		if e.Paths < 1 || len(e.Inconcl) > 0 || len(e.TraceOut) == 0 {
+			fmt.Printf("selftest: FAIL %s: expected conclusive paths, got paths=%d ends=%v inconclusive=%v\n", fn, e.Paths, e.Ends, e.Inconcl)
+			rc = 1
+			continue
+		}
+		// the inputs are concrete; where the symbolic clock still forks the run, every path must agree
+		// a path whose condition is unsatisfiable for the precise solver (the abstraction kept it) is dropped
+		var sym []string
+		agree := true
+		for k, t := range e.TraceOut {
+			if len(t) > 0 && t[len(t)-1] == "$infeasible" {
+				continue
+			}
+			if sym != nil && strings.Join(sym, "\x00") != strings.Join(t, "\x00") {
+				agree = false
+				fmt.Printf("selftest: FAIL %s: symbolic paths disagree (path %s)\n", fn, k)
+				for i := range t {
+					if i < len(sym) && sym[i] != t[i] {
+						fmt.Printf("  %s | %s\n", sym[i], t[i])
+					}
+				}
+				break
+			}
+			sym = t
+		}
+		if !agree || sym == nil {
+			rc = 1
+			continue
+		}
+		// native run
+		cex := filepath.Join(out, fn+".json")
+		b, _ := json.Marshal(map[string]interface{}{"harness": fn, "pkg": pkg, "label": "$observe", "values": map[string]interface{}{}})
+		os.WriteFile(cex, b, 0o644)
+		status, detail := replayCex(cex)
+		if status != "observed" {
+			fmt.Printf("selftest: FAIL %s: native run: %s %s\n", fn, status, detail)
+			rc = 1
+			continue
+		}
+		var nat []string
+		json.Unmarshal([]byte(detail), &nat)
+		if len(nat) != len(sym) {
+			fmt.Printf("selftest: FAIL %s: %d native observations vs %d symbolic\n  native:   %v\n  symbolic: %v\n", fn, len(nat), len(sym), nat, sym)
+			rc = 1
+			continue
+		}
+		bad := 0
+		for i := range nat {
+			if nat[i] != sym[i] {
+				fmt.Printf("selftest: MISMATCH %s #%d\n  native:   %s\n  symbolic: %s\n", fn, i, nat[i], sym[i])
+				bad++
+			}
+		}
+		if bad > 0 {
+			rc = 1
+			continue
+		}
+		fmt.Printf("selftest: ok %s (%d observations agree between the SSA executor and the native build)\n", fn, len(nat))
+	}
+	_ = strings.Join
+	_ = time.Now
+	return rc
+}
